@@ -56,20 +56,6 @@ type c19Rec struct {
 
 var c19T0 = time.Date(2020, 1, 2, 3, 4, 5, 123456789, time.UTC)
 
-func c19ModeOf(s string) OverwriteBehavior {
-	switch s {
-	case "always":
-		return OverwriteAlways
-	case "if-changed":
-		return OverwriteIfChanged
-	case "if-newer":
-		return OverwriteIfNewer
-	case "never":
-		return OverwriteNever
-	}
-	panic("mode " + s)
-}
-
 func c19Fill(n int, b byte) []byte { return bytes.Repeat([]byte{b}, n) }
 
 // c19PreContent concretises a pre-existing file class relative to the snapshot bytes S.
@@ -279,7 +265,7 @@ func c19Run(t *testing.T, r *vrRepo, sn *data.Snapshot, files map[string]string,
 	var mu sync.Mutex
 	var errs []string
 	doRestore := func() error {
-		rs := NewRestorer(r.repo, sn, Options{Sparse: c0.Sparse, Overwrite: c19ModeOf(c0.Mode), Delete: c0.Delete})
+		rs := NewRestorer(r.repo, sn, Options{Sparse: c0.Sparse, Overwrite: vrModeOf(c0.Mode), Delete: c0.Delete})
 		rs.Error = func(location string, err error) error {
 			mu.Lock()
 			errs = append(errs, location+": "+err.Error())
